@@ -9,20 +9,21 @@ CONFIG = {
         "case_type": "case", "ops_path": None, "mismatch_is_violation": False,
         "n_quick": 900, "n_thorough": 12000, "shard": 150,
     }],
-    "rule": "scripted battles on the REAL simulation.Simulation: 1-4 registered harness characters (4 kinds: speeds, SP "
-            "costs, target types), 1-5 harness enemies (HP 50-400, speeds incl. ties), 5-14 content scripts of engine calls "
+    "rule": "scripted battles on the REAL simulation.Simulation: 1-4 registered harness characters (6 kinds: speeds, SP "
+            "costs, target types, a Skill.CanUse / Ult.CanUse check of their own), 1-5 harness enemies (HP 50-400, speeds incl. ties), 5-14 content scripts of engine calls "
             "(attacks qualified/unqualified with lethal and scratch damage on any unit incl. dead and unknown ids, SetHP, "
             "insert abilities with real priorities and abort flags, extra actions, energy, SP, flag modifiers, gauge "
             "changes, revive switches, samples of Characters()/Enemies()/turn order), per-unit action queues, listener "
-            "slots (BattleStart, ActionEnd, HitEnd, TargetDeath, LimboWaitHeal verdict), decision sequences of the "
+            "slots (BattleStart, ActionEnd, HitEnd, TargetDeath, HPChange, AttackStart, the OnPhase1 / OnPhase2 modifier "
+            "ticks, LimboWaitHeal verdict), decision sequences of the "
             "script callbacks incl. invalid targets and ult requests, cycle limit 0-4, insert budget 0-12; distinct = "
             "distinct input term",
     "trusted": ["hits of harness content are 'plain' (no DEF/RES/stance/shield/crit), so a hit's total is its flat damage; the "
                 "damage formula itself is C04",
                 "listener scripts never open or close an attack bracket (legal use of the API, enforced by the model as a "
-                "distinct outcome and respected by the generator)",
+                "distinct outcome and respected by the generator); they may add hits to an attack that is open",
                 "the turn manager part is Model/Turn.v at binary64 (property C02)"],
-    "assumptions": ["content uses the engine API legally: qualified attacks and EndAttack only from action / ult / insert bodies"],
+    "assumptions": ["content uses the engine API legally: an attack bracket is opened (first qualified attack) and closed (EndAttack) only from action / ult / insert bodies"],
     "manifest": {
         "level_text": "Kernel-checked theorems about the model, for every configuration, content script set, decision sequence and run length (run level = about every terminated run `start cfg fuel = Stop s`): (a) the two totals are the left-to-right binary64 sums, from 0, of the total damage of the hits whose defender is an enemy / a character of the battle, over a list that is a permutation of the logged hits (the order in which the statistics subscriber saw them: it runs before the content's HitEnd listener, the log line is written after it, so nested hits are summed in a different order than logged; hits on ids that are not units count on neither side); without a content HitEnd listener the sums are over the log order itself; (b) the two per-cycle series always have equal length >= 1; when the clock's cycle index never decreases from one turn start to the next (decidable on the trace) both end at the totals, and when moreover no hit total is negative or NaN both are non-decreasing in the binary64 order (float-level proof: x <= x + d for x, d >= 0); (c) the total action value is the clock of the last turn start and is carried by the final Termination; the run continues past an exit check iff both sides have living units and floor(clock/100) < limit, and the result is, unchanged, the outcome of the first exit check that fails (state + the one Termination, reason loss, else win, else timeout); for configurations that describe characters first the Termination's reason agrees with the deaths announced in the trace (`reason_ok`), and under the four assumptions (characters first, no HitEnd listener, monotone cycle index, non-negative hits) the whole trace monitor `monitor_c09` accepts every terminated model run. Not proved: that the cycle index is monotone for every configuration (it is for positive speeds at the level of the reals, C02); per-function facts (exit decision, hit bookkeeping) as before.",
         "level_note": "Coq kernel; hand-written model Model/Sim.v tied by whole-trace correspondence; content is scripted harness "
